@@ -17,6 +17,8 @@ from periodictable import core, covalent_radius, crystal_structure, xsf, magneti
 TIER = sys.argv[1] if len(sys.argv) > 1 else "quick"
 QGRID = [float(q) for q in range(31)] if TIER == "quick" else [q / 8.0 for q in range(0, 241)]
 SETS = ["j0", "j2", "j4", "j6", "J"]
+# Q points at which the Coq interval model of the form factors is run (numerator, denominator)
+COQ_QGRID = [(1, 1), (7, 1), (30, 1)] if TIER == "quick" else [(q, 1) for q in range(31)] + [(1, 8), (239, 8)]
 PKGDIR = os.path.dirname(os.path.abspath(periodictable.__file__))
 
 
@@ -62,12 +64,12 @@ def sweep(tname, table):
     cases, meta = [], []
     for el in table:
         cases.append(el_case(el))
-        meta.append([tname, "el", el.number])
+        meta.append([tname, "el", el.number, el.symbol])
     for el in table:
         for charge in (0,) + tuple(el.ions):
             v = f0_of(table, el.number, charge, 0.0)
             cases.append('("f0", [%d; %s], [%s])' % (el.number, "(%d)" % charge if charge < 0 else charge, enc(v)))
-            meta.append([tname, "f0", el.number, charge])
+            meta.append([tname, "f0", el.number, el.symbol, charge])
     return cases, meta
 
 
@@ -93,6 +95,31 @@ def cm_cases(table, listed_symbols):
         v = attempt(cromermann.fxrayatq, s, 0.0)
         cases.append('("fx", [], [%s; %s])' % (enc(s), enc(v)))
         meta.append(["module", "fx", s])
+    return cases, meta
+
+
+def zl(z):
+    return "(%d)" % z if z < 0 else "%d" % z
+
+
+def ff_cases(tname, table):
+    """Form factors on the Coq Q grid: every charge state x every set name (absent ones raise),
+    and f0 of every element and ion."""
+    cases, meta = [], []
+    for el in table:
+        m = attempt(getattr, el, "magnetic_ff")
+        if not isinstance(m, BaseException):
+            for charge, ff in m.items():
+                for k, jn in enumerate(SETS):
+                    for qn, qd in COQ_QGRID:
+                        v = attempt(lambda: getattr(ff, jn + "_Q")(qn / qd))
+                        cases.append('("ffq", [%d; %s; %d; %d; %d], [%s])' % (el.number, zl(charge), k, qn, qd, enc(v)))
+                        meta.append([tname, "ffq", el.number, el.symbol, charge, jn, qn / qd])
+        for charge in (0,) + tuple(el.ions):
+            for qn, qd in COQ_QGRID:
+                v = f0_of(table, el.number, charge, qn / qd)
+                cases.append('("f0q", [%d; %s; %d; %d], [%s])' % (el.number, zl(charge), qn, qd, enc(v)))
+                meta.append([tname, "f0q", el.number, el.symbol, charge, qn / qd])
     return cases, meta
 
 
@@ -374,6 +401,14 @@ def main():
     c2, m2 = sweep("private", priv)
     listed = list(read_waaskirf())
     c3, m3 = cm_cases(pub, listed)
+    f1, fm1 = ff_cases("public", pub)
+    f2, fm2 = ff_cases("private", priv)
+    ffc, ffm, seen = [], [], set()
+    for c, m in zip(f1 + f2, fm1 + fm2):      # the model does not depend on the table: identical cases once
+        if c not in seen:
+            seen.add(c)
+            ffc.append(c)
+            ffm.append(m)
     fails = direct("public", pub) + direct("private", priv)
     counts = dict(
         radii=sum(1 for el in pub if el.covalent_radius is not None),
@@ -384,6 +419,7 @@ def main():
         magnetic_sets=sum(len(ff.__dict__) for el in pub if hasattr(el, "magnetic_ff") for ff in el.magnetic_ff.values()),
         cromer_mann=len(cromermann._cmformulas))
     out = dict(cases=c1 + c2 + c3, meta=m1 + m2 + m3, direct_fails=fails, counts=counts,
+               ff_cases=ffc, ff_meta=ffm, ff_total=len(f1) + len(f2), coq_qgrid=[qn / qd for qn, qd in COQ_QGRID],
                qgrid=[QGRID[0], QGRID[-1], len(QGRID)], n_public=len(c1), n_private=len(c2), n_module=len(c3))
     json.dump(out, sys.stdout)
 
